@@ -36,7 +36,9 @@ def main():
         try:
             for cid in [pid] + EXTRA.get(nm, []):
                 t0 = time.time()
-                p = subprocess.run([sys.executable, os.path.join(VERIF, "vf", "check.py"), cid, "--tier", tier], stdout=subprocess.PIPE, stderr=subprocess.STDOUT, cwd=VERIF, stdin=subprocess.DEVNULL)
+                # evidence of runs against a patched tree must not replace the evidence of the registered checks
+                env = dict(os.environ, KV_EVIDENCE_DIR=os.path.join(VERIF, "scratch", "matrix_evidence"))
+                p = subprocess.run([sys.executable, os.path.join(VERIF, "vf", "check.py"), cid, "--tier", tier], stdout=subprocess.PIPE, stderr=subprocess.STDOUT, cwd=VERIF, stdin=subprocess.DEVNULL, env=env)
                 out = p.stdout.decode(errors="replace")
                 keys = [l.strip()[4:].split(" (x")[0] for l in out.split("\n") if l.strip().startswith("key=")]
                 entry["checks"][cid] = {"rc": p.returncode, "verdict": {0: "missed", 1: "detected", 2: "inconclusive"}.get(p.returncode, "error"), "keys": keys[:8], "wall_s": round(time.time() - t0, 1)}
